@@ -13,7 +13,7 @@ META = {
     'rule_text': 'rule instances: ellipsoid / projection threading at every conversion call of the six methods; each conversion method '
                  'against a reference written from the property (same functional conversion, own attributes in the right slots, heights '
                  'carried, N = ellipsoidal - orthometric); the 6 x 6 notation dispatch (type produced, method existence, definite assignment, '
-                 'heights untouched); presence tests of heights and N value (is None, not truthiness)',
+                 'heights untouched); presence tests of heights and N value (is None, not truthiness); typed notation dispatch of CoordGeo.notation (a float holds decimal degrees; each branch converts, not relabels)',
     'explanation': 'Static: call-site binding (R-THREAD), abstract evaluation of every conversion method with the functional conversions kept '
                    'as opaque call atoms, compared with a reference composition; enumeration of the finite 6 x 6 notation dispatch; '
                    'definite-assignment and None-vs-falsy analyses. Decides that the objects delegate to the functional API with their own '
